@@ -105,14 +105,14 @@ def run(ctx, pid):
         except Exception as e:      # noqa
             out[name] = e
     th = [threading.Thread(target=g, args=("exh", "Gen_Supervise.cfg"), kwargs={"timeout": 900 if quick else 3000}),
-          threading.Thread(target=g, args=("win", "Gen_Supervise_win.cfg"), kwargs={"timeout": 900 if quick else 3000}),
           threading.Thread(target=g, args=("sim", "Gen_Supervise_sim.cfg" if quick else "Gen_Supervise_sim_t.cfg"),
-                           kwargs={"simulate": "num=%d" % (230 if quick else 4000), "files": {"GenSample.tla": sample},
+                           kwargs={"simulate": "num=%d" % (190 if quick else 4000), "files": {"GenSample.tla": sample},
                                    "timeout": 900 if quick else 3300}),
-          # overlapping failures in the model: a pending restart does not resurrect a stopped child (repaired design)
-          threading.Thread(target=mc, args=("ov", "MC_SuperviseOv_fixed.cfg", "MC_SuperviseOv", None), kwargs={"timeout": 900, "workers": 2})]
+          ]
     if not quick:
-        th += [threading.Thread(target=g, args=("exh3", "Gen_Supervise_t.cfg"), kwargs={"timeout": 3300}),
+        # overlapping failures in the model: a pending restart does not resurrect a stopped child (repaired design)
+        th += [threading.Thread(target=mc, args=("ov", "MC_SuperviseOv_fixed.cfg", "MC_SuperviseOv", None), kwargs={"timeout": 900, "workers": 2}),
+               threading.Thread(target=g, args=("exh3", "Gen_Supervise_t.cfg"), kwargs={"timeout": 3300}),
                threading.Thread(target=mc, args=("ovd", "MC_SuperviseOv_defect.cfg", "MC_SuperviseOv", "NoResurrection"), kwargs={"timeout": 900, "workers": 2}),
                threading.Thread(target=mc, args=("dw", "MC_Supervise_dwrace.cfg", "MC_Supervise", "Conforms"), kwargs={"timeout": 1800, "workers": 2})]
     for t in th:
@@ -130,7 +130,10 @@ def run(ctx, pid):
     for k in out:
         if isinstance(out[k], Exception):
             raise out[k] if isinstance(out[k], vlib.Infra) else vlib.Infra(repr(out[k]))
-    (exh, r1), (sim, r2), (win, r3) = out["exh"], out["sim"], out["win"]
+    (exh, r1), (sim, r2) = out["exh"], out["sim"]
+    # one BFS run generates both exhaustive families: length 2 over the core set, length 4 with a Tick over the window set
+    win = [b for b in exh if len(b["ops"]) == 4]
+    exh = [b for b in exh if len(b["ops"]) == 2]
     exh3 = out["exh3"][0] if not quick else []
     seen, uniq = set(), []
     for b in sim:
@@ -143,8 +146,8 @@ def run(ctx, pid):
         raise vlib.Infra("behaviour generation produced too little (%d + %d exhaustive, %d random)" % (len(exh), len(win), len(sim)))
     n_exh_all = len(exh) + len(win)
     if quick:   # the quick tier replays a seeded sample of the exhaustive sets
-        exh = vlib.sample(ctx.rng, exh, 1150) + vlib.sample(ctx.rng, win, 300)
-        sim = sim[:220]
+        exh = vlib.sample(ctx.rng, exh, 1000) + vlib.sample(ctx.rng, win, 250)
+        sim = sim[:180]
     else:       # thorough: every history of length 2, a seeded sample of those of length 3, the random walks
         n_exh3_all = len(exh3)
         exh3 = vlib.sample(ctx.rng, exh3, 7000)
@@ -157,7 +160,7 @@ def run(ctx, pid):
     bfile = ctx.tmp("behaviours.ndjson")
     vlib.write_ndjson(bfile, behaviours)
     ctx.log("behaviours: %d of %d exhaustive + %d random + %d overlap witnesses; design: %d + %d states, Conforms holds"
-            % (len(exh), n_exh_all, len(sim), len(wit), r1.distinct + r3.distinct, r2.generated))
+            % (len(exh), n_exh_all, len(sim), len(wit), r1.distinct, r2.generated))
 
     # 2. replay on the real actor system
     exe = ctx.build("supervision")
